@@ -224,7 +224,8 @@ func VerifC11_ForcedResubscribe() {
 				}
 			}
 		case 4: // a change of token A (policy, role or the token itself) is committed and handed to the publisher
-			pub.Publish([]Event{NewCloseSubscriptionEvent([]string{"tokA"})})
+			// (one commit may affect several tokens: others are listed before and after it, with or without subscribers)
+			pub.Publish([]Event{NewCloseSubscriptionEvent([]string{"tok-without-subscriber", "tokA", "tok-other"})})
 			for pub.VerifDrainOne() {
 			}
 			for _, x := range subs {
